@@ -76,9 +76,22 @@ PROPS["C04"] = dict(
 PROPS["C05"] = dict(
     title="Non-decimal radix string-to-float parsing is correctly rounded",
     level_text="Per-radix ingredients as row obligations: Clinger limits for all 35 radices (safety direction), every "
-               "small/large integer power table. Rounding theorems assumed.",
+               "small/large integer power table. Power-of-two radices additionally have a function contract on "
+               "binary()/slow_binary() (result == round-to-nearest-even of ALL digits, symbolic digit strings longer than the "
+               "64-bit mantissa) and string-level harnesses against an exact evaluator (all strings up to a length, incl. "
+               "subnormal and overflow boundaries, mixed exponent base). Rounding theorems for other radices assumed.",
     rows_quick=["pf-limits", "pf-int-powers"],
     assumptions=FLOAT_THEOREMS,
+)
+PROPS["C06"] = dict(
+    title="Power-of-two radix float output is exact and round-trips",
+    level_text="Kani harnesses on the real writers: for EVERY finite f32 (full 2^32 domain, per radix / exponent-base "
+               "instantiation) the written bytes are evaluated exactly (digits in the mantissa radix, exponent digits in the "
+               "exponent radix, exponent base) and equal mantissa * 2^exponent taken from the float's bits; the hex-float "
+               "round trip (write, then the real complete parser in the same format) returns the identical bits. f64 and the "
+               "remaining radix/base instantiations are in the thorough tier.",
+    assumptions=["instantiated formats only (FORMAT is a const generic): radix 2/4/8/16/32 same-base, 16/2, 16/4, 8/2; "
+                 "max/min_significant_digits unset (the property is about default output)"],
 )
 PROPS["C09"] = dict(
     title="Writers honour the documented buffer bound and never access memory outside it",
@@ -86,9 +99,12 @@ PROPS["C09"] = dict(
                "writer is an in-bounds obligation discharged by Verus for all values (given count == ndigits, itself "
                "proved), with a frame postcondition (bytes beyond the returned length unchanged); Kani checks pointer "
                "validity on the real unsafe code for the 8/16-bit types in all radices with a guard region behind the "
-               "caller's slice. Float writers are not yet under contract for this property.",
+               "caller's slice. Float writers: for every finite f32 and a family of tight options, writing into a buffer of "
+               "exactly buffer_size_const bytes neither panics nor writes outside it (Kani reports every reachable panic); "
+               "the power-of-two writers are run into a guarded buffer for every finite f32.",
     verus_quick=WI_RADIX + JEAIII, verus_thorough=WI_RADIX + JEAIII_T,
-    assumptions=["float writers (Dragonbox/Grisu/binary/radix emit functions) are not covered by this check yet"],
+    assumptions=["float writers: option families are instantiated (min_significant_digits 58..60, breaks -6..-1/1..9); f64 and "
+                 "the generic-radix writer only through the native sweep (developer aid, not counted)"],
 )
 PROPS["C10"] = dict(
     title="Parsers are total",
@@ -109,11 +125,36 @@ PROPS["C12"] = dict(
     assumptions=["bounded: instantiated format list and input length; integer-parser flags (leading zeros, base prefix) not covered yet"],
 )
 PROPS["C13"] = dict(
-    title="Digit separators never change a value",
+    title="Digit separators never change a value and are accepted only where enabled",
     level_text="Relational contracts between a separator format F and its separator-free counterpart F0 on the real tokenizer: "
                "(R1) an input accepted under F is accepted with the same value under F0 once the separators are deleted; "
-               "(R2) an input without separator bytes is treated identically by F and F0. Bounded: instantiated formats, input length, digit templates.",
-    assumptions=["bounded: format list, input length <= 6, digit templates; separator *position* legality (leading/internal/trailing classification) is not checked yet"],
+               "(R2) an input without separator bytes is treated identically by F and F0; (R3) the complete tokenizer accepts a string "
+               "exactly when every separator run stands in a position (leading / internal / trailing, single / consecutive) that the "
+               "component's flags enable - for all 14 flag combinations. Bounded: instantiated formats, input length, digit templates.",
+    assumptions=["bounded: format list (14 uniform flag combinations + 4 per-component ones), input length <= 4..6, digit templates"],
+)
+PROPS["C14"] = dict(
+    title="Float write options control digits and notation",
+    level_text="The decimal emit functions (scientific / positive / negative exponent) and the shared rounding helpers are "
+               "checked on the real code against an oracle that RE-READS the bytes with the reference tokenizer: exact "
+               "rational value == default digits rounded half-even (or truncated) to max_significant_digits, carry moves "
+               "the exponent, at least min_significant_digits unless trimmed, '.0' removed only by trim_floats, exponent "
+               "notation only from the scientific writer. Bounded in mantissa digits / exponent / digit options.",
+    assumptions=["bounded: mantissas up to 4-5 digits, |sci_exp| <= 6, digit options <= 7; notation *choice* (break points), binary/hex/radix writers and compact not covered yet"],
+)
+PROPS["C17"] = dict(
+    title="The allocating lexical API equals lexical-core and only emits ASCII",
+    level_text="to_string == lexical_core::write byte for byte and every byte < 0x80 for every u8/i8 (i16 thorough) value; "
+               "lexical::parse* == lexical_core::parse* on all byte strings up to length 3; emit-function harnesses check ASCII output.",
+    assumptions=["floats and wider integers only through the emit/integer-writer contracts (ASCII postconditions); to_string_with_options not covered"],
+)
+PROPS["C08"] = dict(
+    title="What lexical writes, lexical parses back",
+    level_text="Integers: parse(write(v)) == v on the real crates for every u8/i8 (i16 thorough) value, plus the two specs meet: "
+               "writers emit numeral(v) (C03 contracts) and the parser reads every [+-]digits string exactly (C04). Floats: the "
+               "emit functions' output is accepted in full by the reference grammar of the same format with the emitted value "
+               "(bounded), and the real tokenizer equals that grammar (C12, bounded).",
+    assumptions=["composition through the reference grammar; float value-level round trip inherits C01/C02 assumptions; non-default formats/options not covered"],
 )
 PROPS["C15"] = dict(
     title="Special values and signed zero are handled consistently",
